@@ -485,4 +485,52 @@ theorem serialisePkg_tags (s : String) (p : PkgSrc) :
   · obtain ⟨_, _, rfl⟩ := h; right; rfl
   · obtain ⟨_, _, rfl⟩ := h; left; simp [PComp.tag, requiredPkgTags]
 
+/-! ### non-vacuity: a concrete instance meeting every hypothesis, with real cache hits -/
+namespace Example
+
+abbrev PD0 := List PComp
+abbrev VD0 := Vetx
+abbrev D0 := List (KComp PD0 VD0)
+
+def analyze0 (i : AInputs) : Outcome :=
+  if i.goVersion = "bad" then .error ["type error"]
+  else .done (i.pkg.pkgPath ++ "#" ++ i.cfg ++ String.join (i.depVetx.map (·.2)))
+    [⟨"SA1019", i.pkg.pkgPath ++ i.goVersion⟩, ⟨"ST1003", i.cfg⟩]
+
+/-- structural "hashes": injective by construction -/
+def P0 : Params PD0 VD0 D0 := ⟨id, id, id, fun _ _ i => analyze0 i⟩
+def leaf : Pkg := ⟨⟨"linux", "amd64", "m/dep", ["f1"], [], []⟩, "cfgA", ["all"], true, [], []⟩
+def top (files : String) (checks : List String) : Pkg :=
+  ⟨⟨"linux", "amd64", "m/app", [files], [("m/dep", "id1")], []⟩, "cfgA", checks, true, [0], []⟩
+def w0 : World := ⟨"salt", "A,B", "module", "", [leaf, top "f2" ["SA1019"]]⟩
+/-- the target was edited -/
+def w1 : World := ⟨"salt", "A,B", "module", "", [leaf, top "f2-edited" ["SA1019"]]⟩
+/-- only `Checks` changed -/
+def w2 : World := ⟨"salt", "A,B", "module", "", [leaf, top "f2" ["all"]]⟩
+def sel0 (checks : List String) (c : String) : Bool := checks.contains "all" || checks.contains c
+
+example : Inj P0.Hp ∧ Inj P0.vhash ∧ Inj P0.H := ⟨fun _ _ h => h, fun _ _ h => h, fun _ _ h => h⟩
+example : Respects P0.an Eq := respects_of_function analyze0
+-- the hypotheses of `cache_inv` / `warm_eq_cold` are met by a cache that is not empty:
+example : (cacheAfter P0 [w0]).1.vet.length = 2 ∧ (cacheAfter P0 [w0]).2 = 2 := by decide
+-- second run on the unchanged world: both actions hit (the nonce does not advance)
+example : (run P0 (cacheAfter P0 [w0]).1 (cacheAfter P0 [w0]).2 w0).2.1 = 2 := by decide
+-- after an edit of the target only the target is analysed; the dependency is a hit although the world changed
+example : (run P0 (cacheAfter P0 [w0]).1 (cacheAfter P0 [w0]).2 w1).2.1 = 3 := by decide
+-- revert to an earlier state: everything hits
+example : (run P0 (cacheAfter P0 [w1, w0]).1 (cacheAfter P0 [w1, w0]).2 w0).2.1 = 3 := by decide
+-- changed Checks: everything hits, the report changes through the filter only
+example : (run P0 (cacheAfter P0 [w0]).1 (cacheAfter P0 [w0]).2 w2).2.1 = 2 := by decide
+example : report sel0 (run P0 (cacheAfter P0 [w0]).1 (cacheAfter P0 [w0]).2 w2).2.2 =
+    [⟨"SA1019", "m/depmodule"⟩, ⟨"ST1003", "cfgA"⟩, ⟨"SA1019", "m/appmodule"⟩, ⟨"ST1003", "cfgA"⟩] := by decide
+example : w0.eraseChecks = w2.eraseChecks := by decide
+-- warm = cold on this instance, as an instance of the theorem
+example : report sel0 (run P0 (cacheAfter P0 [w1, w0]).1 (cacheAfter P0 [w1, w0]).2 w2).2.2 =
+    report sel0 (run P0 Cache.empty 0 w2).2.2 :=
+  warm_eq_cold P0 Eq (fun _ _ h => h) (fun _ _ h => h) (fun _ _ h => h) (respects_of_function analyze0) sel0 _ _ _
+-- the key is sensitive to every modelled input (here: the Go version)
+example : key P0 (mkInputs w0 leaf []) ≠ key P0 (mkInputs { w0 with goVersion := "1.3" } leaf []) := by decide
+
+end Example
+
 end Verif.C04
